@@ -105,6 +105,9 @@ PROBES.append((re.compile(r"^ad::(AuthenticatorData::from_slice|AttestedCredenti
 
 
 PROBES.append((re.compile(r"^(clt::|org::|cli::Client::)"), "client-ceremonies", ["sweep"]))
+PROBES.append((re.compile(r"^sto::Option::"), "shipped-store", ["option"]))
+PROBES.append((re.compile(r"^sto::MemoryStore::.*finds-what-matches"), "shipped-store", ["memory-idless"]))
+PROBES.append((re.compile(r"^sto::MemoryStore::"), "shipped-store", ["memory-rp", "memory-idless"]))
 # sender: payload lengths around every packet boundary (and the maximum), every byte non-zero so that stale bytes show
 PROBES.insert(0, (re.compile(r"^hid::Message::(send|to_packets)::"), "hid-roundtrip",
                   ["01020304:10:" + "".join("%02x" % (1 + (k * 7) % 250) for k in range(n)) for n in (0, 1, 56, 57, 58, 59, 114, 115, 116, 117, 173, 174, 175, 233, 7608, 7609)]))
